@@ -74,8 +74,15 @@ pub fn peer_message(op: &Op) -> Option<(RMsg, u32, u32)> {
             args.truncate(*nargs);
             (command("play", *txid, V::Null, args), *msid, 0)
         }
-        Op::CloseStream { id } => (command("closeStream", 0.0, V::Null, id.map(|i| vec![amf::num(i as f64)]).unwrap_or_default()), id.unwrap_or(0), 0),
-        Op::DeleteStream { id } => (command("deleteStream", 0.0, V::Null, id.map(|i| vec![amf::num(i as f64)]).unwrap_or_default()), id.unwrap_or(0), 0),
+        Op::CloseStream { id, raw } | Op::DeleteStream { id, raw } => {
+            let name = if matches!(op, Op::CloseStream { .. }) { "closeStream" } else { "deleteStream" };
+            let args = match (raw, id) {
+                (Some(x), _) => vec![amf::num(*x)],
+                (None, Some(i)) => vec![amf::num(*i as f64)],
+                (None, None) => vec![],
+            };
+            (command(name, 0.0, V::Null, args), id.unwrap_or(0), 0)
+        }
         Op::Audio { msid, ts, data } => (RMsg::Audio(data.clone()), *msid, *ts),
         Op::Video { msid, ts, data } => (RMsg::Video(data.clone()), *msid, *ts),
         Op::SetDataFrame { msid, well_formed } => (
@@ -177,6 +184,11 @@ pub enum StreamSel {
     Never,
     Zero,
     NoArg,
+    /// a number outside the u32 range that is congruent to the first stream's id modulo 2^32
+    AliasAbove,
+    AliasBelow,
+    /// other numbers that name no stream: -1, 2^32, 1e300
+    OutOfRange,
 }
 
 #[derive(Clone, Copy, Debug, PartialEq)]
@@ -204,7 +216,18 @@ fn sel_stream(m: &Model, s: StreamSel) -> Option<u32> {
         StreamSel::Deleted => Some(m.deleted_streams.last().cloned().unwrap_or(2)),
         StreamSel::Never => Some(77),
         StreamSel::Zero => Some(0),
-        StreamSel::NoArg => None,
+        StreamSel::NoArg | StreamSel::AliasAbove | StreamSel::AliasBelow | StreamSel::OutOfRange => None,
+    }
+}
+
+/// the number sent for selections that do not name a stream by an exact u32
+fn sel_raw(m: &Model, s: StreamSel, rng: &mut Rng) -> Option<f64> {
+    let first = m.streams.keys().next().cloned().unwrap_or(1) as f64;
+    match s {
+        StreamSel::AliasAbove => Some(4294967296.0 + first),
+        StreamSel::AliasBelow => Some(first - 4294967296.0),
+        StreamSel::OutOfRange => Some(*rng.pick(&[-1.0, 4294967296.0, 1e300, -1e300, 8589934592.0])),
+        _ => None,
     }
 }
 
@@ -219,15 +242,20 @@ fn sel_id(m: &Model, s: IdSel) -> u32 {
 
 pub fn resolve(sym: Sym, m: &Model, rng: &mut Rng, step: usize) -> Op {
     let txid = (step + 2) as f64;
-    let media = |rng: &mut Rng| -> (u32, Vec<u8>) { (rng.u32_boundary(), rng.bytes_in(0, 40)) };
+    let media = |rng: &mut Rng| -> (u32, Vec<u8>) {
+        let mut d = rng.bytes_in(0, 40);
+        let t = if rng.coin() { 8 } else { 9 };
+        rng.flv_prefix(t, &mut d);
+        (rng.u32_boundary(), d)
+    };
     match sym {
-        Sym::ConnectGood => Op::Connect { txid, app: Some(if rng.chance(1, 6) { "live/".to_string() } else { format!("app{}", step % 3) }), object: true },
+        Sym::ConnectGood => Op::Connect { txid, app: Some(if rng.chance(1, 6) { "live/".to_string() } else { rng.spice(format!("app{}", step % 3)) }), object: true },
         Sym::ConnectNoApp => Op::Connect { txid, app: None, object: true },
         Sym::ConnectNonObject => Op::Connect { txid, app: None, object: false },
         Sym::CreateStream => Op::CreateStream { txid },
         Sym::Publish(s, a) => {
             let (key, mode, nargs) = match a {
-                ArgForm::Good => (Some("key".to_string()), Some(rng.pick(&["live", "record", "append", "LIVE"]).to_string()), 2),
+                ArgForm::Good => (Some(rng.spice("key".to_string())), Some(rng.pick(&["live", "record", "append", "LIVE"]).to_string()), 2),
                 ArgForm::OtherKey => (Some("other".to_string()), Some("live".to_string()), 2),
                 ArgForm::TooFew => (Some("key".to_string()), None, rng.usize(0, 1)),
                 ArgForm::IllTypedKey => (None, Some("live".to_string()), 2),
@@ -238,15 +266,15 @@ pub fn resolve(sym: Sym, m: &Model, rng: &mut Rng, step: usize) -> Op {
         }
         Sym::Play(s, a) => {
             let (key, nargs) = match a {
-                ArgForm::Good => (Some("key".to_string()), *rng.pick(&[1usize, 1, 2, 3, 4])),
+                ArgForm::Good => (Some(rng.spice("key".to_string())), *rng.pick(&[1usize, 1, 2, 3, 4])),
                 ArgForm::OtherKey => (Some("other".to_string()), 1),
                 ArgForm::TooFew => (Some("key".to_string()), 0),
                 _ => (None, 1),
             };
             Op::Play { msid: sel_stream(m, s).unwrap_or(0), txid, key, nargs }
         }
-        Sym::Close(s) => Op::CloseStream { id: sel_stream(m, s) },
-        Sym::Delete(s) => Op::DeleteStream { id: sel_stream(m, s) },
+        Sym::Close(s) => Op::CloseStream { id: sel_stream(m, s), raw: sel_raw(m, s, rng) },
+        Sym::Delete(s) => Op::DeleteStream { id: sel_stream(m, s), raw: sel_raw(m, s, rng) },
         Sym::Audio(s) => {
             let (ts, data) = media(rng);
             Op::Audio { msid: sel_stream(m, s).unwrap_or(0), ts, data }
@@ -343,8 +371,8 @@ pub fn random_sym(rng: &mut Rng, m: &Model) -> Sym {
         2 | 3 => Sym::CreateStream,
         4 | 5 => Sym::Publish(ss(rng), *rng.pick(&[ArgForm::Good, ArgForm::Good, ArgForm::OtherKey, ArgForm::TooFew, ArgForm::IllTypedKey, ArgForm::BadMode, ArgForm::IllTypedMode])),
         6 | 7 => Sym::Play(ss(rng), *rng.pick(&[ArgForm::Good, ArgForm::Good, ArgForm::OtherKey, ArgForm::TooFew, ArgForm::IllTypedKey])),
-        8 | 9 => Sym::Close(if rng.chance(1, 8) { StreamSel::NoArg } else { ss(rng) }),
-        10 | 11 => Sym::Delete(if rng.chance(1, 8) { StreamSel::NoArg } else { ss(rng) }),
+        8 | 9 => Sym::Close(if rng.chance(1, 5) { *rng.pick(&[StreamSel::NoArg, StreamSel::AliasAbove, StreamSel::AliasBelow, StreamSel::OutOfRange]) } else { ss(rng) }),
+        10 | 11 => Sym::Delete(if rng.chance(1, 5) { *rng.pick(&[StreamSel::NoArg, StreamSel::AliasAbove, StreamSel::AliasBelow, StreamSel::OutOfRange]) } else { ss(rng) }),
         12 | 13 => Sym::Audio(ss(rng)),
         14 | 15 => Sym::Video(ss(rng)),
         16 => Sym::Meta(ss(rng), true),
@@ -366,6 +394,7 @@ pub fn random_sym(rng: &mut Rng, m: &Model) -> Sym {
 pub fn run_history(next: &mut dyn FnMut(usize, &Model, &mut Rng) -> Option<Sym>, rng: &mut Rng, out: &mut Out) -> bool {
     out.eval(1);
     let mut cfg = ServerSessionConfig::new();
+    cfg.fms_version = rng.spice(cfg.fms_version.clone());
     cfg.chunk_size = *rng.pick(&[4096u32, 128, 1]);
     let (mut rig, init) = match ServerRig::new(cfg, 1000) {
         Ok(x) => x,
@@ -518,11 +547,46 @@ impl Check for C09 {
             10..=19 => rng.usize(40, 80),
             _ => rng.usize(10, 40),
         };
-        let mut it = |i: usize, m: &Model, r: &mut Rng| if i < len { Some(random_sym(r, m)) } else { None };
+        // "many of the same" mode: one symbol repeated 129..1100 times somewhere in the walk
+        // (tables with a cap, counters with a limit), then the walk goes on
+        let burst: Option<(usize, usize, Sym)> = if rng.chance(1, 60) {
+            let n = *rng.pick(&[129usize, 130, 200, 257, 300, 1025, 1100]);
+            let sym = *rng.pick(&[
+                Sym::Publish(StreamSel::Last, ArgForm::Good),
+                Sym::Play(StreamSel::Last, ArgForm::Good),
+                Sym::ConnectGood,
+                Sym::CreateStream,
+                Sym::Ping,
+                Sym::Audio(StreamSel::Last),
+                Sym::Publish(StreamSel::First, ArgForm::OtherKey),
+            ]);
+            Some((rng.usize(2, 8), n, sym))
+        } else {
+            None
+        };
+        let total = len + burst.map(|b| b.1).unwrap_or(0);
+        let mut it = |i: usize, m: &Model, r: &mut Rng| {
+            if i >= total {
+                return None;
+            }
+            if let Some((at, n, sym)) = burst {
+                if i >= at && i < at + n {
+                    return Some(sym);
+                }
+                if i == at + n {
+                    // answer the oldest of what piled up
+                    return Some(Sym::Accept(IdSel::Oldest));
+                }
+            }
+            Some(random_sym(r, m))
+        };
+        if burst.is_some() {
+            out.count("walks_with_a_burst_of_one_symbol", 1);
+        }
         run_history(&mut it, rng, out);
     }
     fn rule(&self) -> String {
-        "histories over peer messages {connect (good / no app / non-object), createStream, publish and play (good, other key, too few, ill-typed key, bad mode, ill-typed mode; on the first, last, a deleted, a never-created stream id and stream 0), closeStream/deleteStream (same stream choices, or no argument), audio, video, @setDataFrame+onMetaData (well formed or not), other data, ping request, unknown command} encoded by the independent encoder, and application calls {accept/reject with the oldest, newest, an already-used and a never-issued id; send audio/video/metadata; finish_playing; ping}. Random walks of 5-80 steps, one third of the steps biased towards protocol progress, the rest uniform (rare orders: commands before connect, re-publish after close, second publisher, media on closed streams, second connect). Bounded exhaustive: all sequences of length 5 (thorough 6) over a 14-symbol reduced alphabet, and all sequences of length 4 (thorough 5) over a second 14-symbol alphabet (two streams, two keys, accept/reject of oldest and newest) run after the fixed prefix connect, accept, createStream, createStream. After every step events, decoded responses and Ok/Err are compared with model::server. distinct = hash of the (model state class, symbol) sequence.".to_string()
+        "histories over peer messages {connect (good / no app / non-object), createStream, publish and play (good, other key, too few, ill-typed key, bad mode, ill-typed mode; on the first, last, a deleted, a never-created stream id and stream 0), closeStream/deleteStream (same stream choices, no argument, or a number that names no stream: 2^32 + id, id - 2^32, -1, 2^32, +-1e300), audio, video, @setDataFrame+onMetaData (well formed or not), other data, ping request, unknown command} encoded by the independent encoder, and application calls {accept/reject with the oldest, newest, an already-used and a never-issued id; send audio/video/metadata; finish_playing; ping}. Random walks of 5-80 steps (1 in 40 of 200-400 steps; 1 in 60 with a burst of 129-1100 repetitions of one symbol followed by an accept of the oldest request), one third of the steps biased towards protocol progress, the rest uniform (rare orders: commands before connect, re-publish after close, second publisher, media on closed streams, second connect). Bounded exhaustive: all sequences of length 5 (thorough 6) over a 14-symbol reduced alphabet, and all sequences of length 4 (thorough 5) over a second 14-symbol alphabet (two streams, two keys, accept/reject of oldest and newest) run after the fixed prefix connect, accept, createStream, createStream. After every step events, decoded responses and Ok/Err are compared with model::server. distinct = hash of the (model state class, symbol) sequence.".to_string()
     }
     fn assumptions(&self) -> Vec<String> {
         vec![
@@ -539,6 +603,7 @@ impl Check for C09 {
             "enumerated_sequences_two_streams".into(),
             "histories_ended_by_expected_session_error".into(),
             "corner_accept-for-missing-stream".into(),
+            "walks_with_a_burst_of_one_symbol".into(),
         ]
     }
     fn exhaustive_part(&self, tier: Tier) -> Option<String> {
